@@ -109,9 +109,50 @@ def is_xml_char(ch):
     return o in (9, 10, 13) or 0x20 <= o <= 0xd7ff or 0xe000 <= o <= 0xfffd or 0x10000 <= o <= 0x10ffff
 
 
+def regenerated_files(ctx):
+    """the .ui as it sits ON DISK after the command regenerated it over an older, longer or shorter one: still one well-formed document holding the strings of the
+    current source"""
+    import os
+    import shutil
+    import subprocess
+    from . import c07
+    cli = c07.build_cli()
+    work = os.path.join(C.BUILD, "c09regen")
+    shutil.rmtree(work, ignore_errors=True)
+    os.makedirs(work)
+    doc = lambda n, t: "import qmluic.QtWidgets\nQWidget {\n" + "".join("  QLabel { text: \"%s %d\" }\n" % (t, i) for i in range(n)) + "}\n"
+    seq = [(6, "long <&> one"), (2, "short"), (9, "longer \u00e9"), (1, "x"), (1, "x"), (4, "mid]]>")]
+    for k, (n, t) in enumerate(seq):
+        open(os.path.join(work, "Form.qml"), "w").write(doc(n, t))
+        pr = subprocess.run([cli, "generate-ui", "--foreign-types", os.path.join(C.REPO, "contrib", "metatypes"), "Form.qml"], cwd=work, capture_output=True, text=True, timeout=120)
+        ctx.count(("regenerated", k), True)
+        ctx.dist("regenerated-over-existing-output")
+        if pr.returncode != 0:
+            ctx.violation("generate-ui fails on a valid document: %s" % pr.stderr[-300:], {"history": seq[:k + 1], "impl_output": pr.stderr[-600:]})
+            break
+        for out in ("form.ui", "uisupport_form.h"):
+            data = open(os.path.join(work, out), "rb").read()
+            if out.endswith(".ui"):
+                try:
+                    root = ET.fromstring(data)
+                except ET.ParseError as e:
+                    ctx.violation("after regenerating (%d labels over %d) the .ui on disk is not well-formed XML: %s" % (n, seq[k - 1][0] if k else 0, e),
+                                  {"history": [list(x) for x in seq[:k + 1]], "impl_output": data.decode("utf-8", "replace")[-600:], "theorem_or_correspondence": "S: expat on the file as written"})
+                    shutil.rmtree(work, ignore_errors=True)
+                    return
+                got = [p.find("string").text for w in root.iter("widget") for p in w.findall("property") if p.get("name") == "text"]
+                if got != ["%s %d" % (t, i) for i in range(n)]:
+                    ctx.violation("after regenerating, the .ui on disk holds the strings %r, the source has %d labels '%s i'" % (got[:3], n, t), {"history": [list(x) for x in seq[:k + 1]]})
+            elif data.count(b"#pragma once") != 1 or not data.rstrip().endswith(b"} // namespace UiSupport"):
+                ctx.violation("after regenerating, the support header on disk is not one complete header", {"history": [list(x) for x in seq[:k + 1]], "impl_output": data.decode("utf-8", "replace")[-400:]})
+    shutil.rmtree(work, ignore_errors=True)
+
+
 def run(ctx):
     ctx.proof_leg(TARGETS, PINS, k_targets=K_TARGETS)
     vh = ctx.need_harness()
+    if not ctx.replay:
+        regenerated_files(ctx)
     rng = ctx.rng
     os.environ["VERIF_EXTRA_METATYPES"] = ""
     thorough = ctx.tier == "thorough"
